@@ -198,6 +198,19 @@ class ExtMixin:
         for st1, items in self._comp(st, n.elt, list(n.generators)):
             yield st1, PList(items)
 
+    def ev_Yield(self, st, n):
+        """`yield v` inside a generator function executed by a harness: the harness's hook sees every yielded value in order"""
+        hook = getattr(self, "yield_hook", None)
+        if hook is None:
+            raise Unsupported("yield outside a harness that observes the yielded sequence")
+        if n.value is None:
+            hook(st, None, n)
+            yield st, None
+            return
+        for st1, v in self.ev(st, n.value):
+            hook(st1, v, n)
+            yield st1, None
+
     def ev_GeneratorExp(self, st, n):
         for st1, items in self._comp(st, n.elt, list(n.generators)):
             yield st1, PList(items)
